@@ -18,8 +18,16 @@
   `.ok file` = it wrote `file`; `.error partial` = it raised after writing `partial` (observed for
   offsets with offset + size > 2^32: OverflowError after the output files were written).
 
+  Writes the operating system refuses (`FS.canWrite` false: missing parent directory, a directory in
+  the way) are modelled IN THE ORDER OF THE CODE, `ExitStatus.osError`: the `open(…, 'w')` of step 5 or
+  6 raises an OSError that nothing catches (traceback, exit status 1) and WHAT WAS WRITTEN BEFORE STAYS
+  WRITTEN - `-l l.txt -o /nodir/out.bin` ends with status 1 and l.txt overwritten.  In step 7 it is
+  `bin2hex` that opens the .hex file; it catches the IOError, prints `ERROR: Could not write to
+  file`, returns 1, and cli_main ignores that value: exit status 0, labels file and binary written,
+  no .hex file (`osError 0`).  These runs are failures of the operating system, not of the
+  assembler; C17's failure clause is stated for the others.
+
   Outside the model (`ExitStatus.unsupported`, never compared): paths that are not in normal form,
-  writes the operating system would refuse (missing parent directory, a directory in the way),
   negative label values (`0x-0000001`), non-ASCII option strings.
 -/
 import BB.Read
@@ -28,13 +36,25 @@ namespace BB.Cli
 
 inductive ExitStatus where
   | code (n : Nat)
+  /-- the operating system refused to open `what` for writing; the process ended with exit status
+      `n`; the files written before that point stay written -/
+  | osError (n : Nat) (what : String)
   | unsupported (why : String)
   deriving Repr, DecidableEq, Inhabited
 
 /-- the run ended with a non-zero exit status -/
 def ExitStatus.failed : ExitStatus → Prop
   | .code n => n ≠ 0
+  | .osError n _ => n ≠ 0
   | .unsupported _ => False
+
+/-- the run ended because the operating system refused a write (not a failure of the assembler) -/
+def ExitStatus.osFailure : ExitStatus → Prop
+  | .osError _ _ => True
+  | _ => False
+
+instance (e : ExitStatus) : Decidable e.osFailure := by
+  cases e <;> simp only [ExitStatus.osFailure] <;> infer_instance
 
 /-- model of `intelhex.bin2hex(fin, fout, offset)`: the bytes of the file it writes, or, when it
     raises, what it left in the file -/
@@ -105,7 +125,7 @@ def parseOffset : Option String → Except ExitStatus (Option Int)
       | some v => .ok (some v)
       | none => .error (.code 1)
 
-/-- steps 5-7 -/
+/-- steps 5-7, in the order of the code: labels file, binary, Intel HEX; each write is final -/
 def writeOutputs (hexEncode : HexEnc) (fs : FS) (cwd : String) (a : Args) (offset : Option Int)
     (r : AsmResult) : ExitStatus × FS :=
   -- 5. labels
@@ -115,7 +135,7 @@ def writeOutputs (hexEncode : HexEnc) (fs : FS) (cwd : String) (a : Args) (offse
     | some l =>
       if l = "" then .ok fs else
       match absPath cwd l, labelText r.labels with
-      | some lp, some t => if FS.canWrite fs lp then .ok (FS.write fs lp (textBytes t)) else .error (.unsupported "os error (labels file)")
+      | some lp, some t => if FS.canWrite fs lp then .ok (FS.write fs lp (textBytes t)) else .error (.osError 1 "labels file")
       | none, _ => .error (.unsupported "labels path form")
       | _, none => .error (.unsupported "negative label value")
   match step5 with
@@ -125,13 +145,15 @@ def writeOutputs (hexEncode : HexEnc) (fs : FS) (cwd : String) (a : Args) (offse
     match absPath cwd a.output with
     | none => (.unsupported "output path form", fs)
     | some op =>
-      if !FS.canWrite fs1 op then (.unsupported "os error (output file)", fs) else
+      -- the labels file (if any) has been written by now and stays written
+      if !FS.canWrite fs1 op then (.osError 1 "output file", fs1) else
       let fs2 := FS.write fs1 op r.bytes
       -- 7. Intel HEX
       match offset with
       | none => (.code 0, fs2)
       | some off =>
-        if !FS.canWrite fs2 (op ++ ".hex") then (.unsupported "os error (hex file)", fs) else
+        -- bin2hex catches the IOError and returns 1, which cli_main ignores: exit status 0
+        if !FS.canWrite fs2 (op ++ ".hex") then (.osError 0 "hex file", fs2) else
         match hexEncode off r.bytes with
         | .ok h => (.code 0, FS.write fs2 (op ++ ".hex") h)
         | .error part => (.code 1, FS.write fs2 (op ++ ".hex") part)
